@@ -5,13 +5,15 @@ composition (two endpoints, up to two clusters each, attributes readable with Vi
 possibly timed-only, commands needing Operate / Manage / Admin, possibly timed-only or fabric-scoped), an access-control
 list (0-2 entries: privilege x any / this / another node x whole node / endpoint / cluster targets), a requester (CASE
 node of the fabric, or a PASE session without fabric) and a request (read / write / invoke of 1-3 concrete, absent or
-wildcard paths, timed or not), it gives per path the set of elements the request returns or acts on and whether the
+wildcard paths, timed or not, the TimedRequest flag of the message agreeing with that or not, a write possibly in two
+chunks with the second one carrying its own flag and possibly arriving after the timed window), it gives per path the set of elements the request returns or acts on and whether the
 path must be answered with a status instead.  TLC draws the vectors and checks the reference's sanity invariant; the
 harness builds the same node on a real device with an instrumented handler (logging every read / write / invoke call),
 installs the ACL, and runs the real request through ImClient over a planted CASE or PASE session.
 Verdict: returned data = expected multiset; handler calls = expected multiset (so a denied or absent element has no
 effect on the device and is never read); a concrete path that selects nothing is answered with a non-success status;
-a wildcard path never produces a status."""
+a wildcard path never produces a status.
+The node composition changing between the items of a long answer is a model of its own (Expand.tla): see expand_stage."""
 import json, os, collections, concurrent.futures
 import vlib
 from vlib import Check
@@ -19,7 +21,79 @@ from vlib import Check
 def feature(v):
     r = v["req"]
     wild = any(p["ep"] < 0 or p["cl"] < 0 or p["leaf"] < 0 for p in r["paths"])
-    return "%s|%s|%s|%s|acl%d" % (r["kind"], ("late" if r.get("late") else "timed") if r["timed"] else "untimed", "wild" if wild else "concrete", v["who"]["mode"], len(v["acl"]))
+    t = ("late" if r.get("late") else "timed") if r["timed"] else "untimed"
+    if r["kind"] != "read" and r.get("claim", r["timed"]) != r["timed"]:
+        t += "-mismatch"
+    if r.get("paths2"):
+        t += "+chunk2" + ("-mismatch" if r["claim2"] != r["timed"] else "-late" if r["late2"] else "")
+    return "%s|%s|%s|%s|acl%d" % (r["kind"], t, "wild" if wild else "concrete", v["who"]["mode"], len(v["acl"]))
+
+def expand_stage(ck, quick, seed):
+    """The node composition changes between the items of a long answer (Expand.tla): TLC checks exhaustively that the
+    transcribed path expander satisfies Layer P under up to 3 replacements of the node (and that the variant with a stale
+    cluster cursor does not); TLC-simulated answers are replayed on the real expand_read with a node that is swapped
+    between pulls; every pull is compared with the model (Layer I) and TLC validates the recorded items against Layer P."""
+    wd = ck.wd
+    mc = vlib.tlc_mc("C06", "Expand.tla", "MCExpand.cfg", workers=6 if quick else 14, timeout=3000)
+    if not mc["ok"]:
+        raise vlib.ToolError("Expand.tla violates Layer P (%s):\n%s" % (mc["violated"], mc["out_tail"]))
+    sens = vlib.tlc_mc("C06", "Expand.tla", "MCExpand_stale.cfg", workers=4, timeout=600)
+    if sens["ok"]:
+        raise vlib.ToolError("the stale-cursor variant of Expand.tla satisfies Layer P: the model is vacuous")
+    beh, gen = vlib.tlc_sim("C06", "Expand.tla", "GenExpand.cfg", num=1500 if quick else 30000, depth=60, seed=seed, timeout=2400)
+    seen, uniq = set(), []
+    for b in beh:
+        kk = json.dumps(b, sort_keys=True)
+        if kk not in seen:
+            seen.add(kk); uniq.append(b)
+    beh = uniq
+    if len(beh) < 500:
+        raise vlib.ToolError("Expand generator produced only %d answers" % len(beh))
+    bpath = os.path.join(wd, "expand_behaviours.ndjson")
+    vlib.write_ndjson(bpath, beh)
+    opath, tpath = os.path.join(wd, "expand_out.ndjson"), os.path.join(wd, "expand_trace.ndjson")
+    summ = vlib.harness(["c06x", "--behaviours", bpath, "--out", opath, "--trace", tpath], timeout=1200)
+    outs = vlib.read_ndjson(opath)
+    # Layer P on the real items (a rejected answer is a violation whatever the model says)
+    states, n_runs, rej = vlib.validate_runs("C06", "ExpandTrace.tla", "ExpandTrace.cfg", tpath)
+    bad = set()
+    for r in rej:
+        bi = r["run"][0].get("run", 0)
+        bad.add(bi)
+        ck.violation("C06|expand|%s" % r["event"].get("ev"), "node changing during the answer: real expander event %s (no. %d of its answer) is not allowed by Layer P" % (json.dumps(r["event"]), r["at"]),
+                     {"behaviour": beh[bi] if bi < len(beh) else None, "first_rejected": {"index": r["at"], "event": r["event"]}, "run": r["run"][:80]})
+    # Layer I: every pull yields what the transcription yields (drift of the model is a tool error, not a violation)
+    n_pull = n_change = 0
+    for bi, (b, o) in enumerate(zip(beh, outs)):
+        if o.get("panic"):
+            ck.violation("C06|expand|panic", "the path expander panicked: %s" % o["panic"], {"behaviour": b})
+            continue
+        exp = [op["out"] for op in b if op["op"] == "Pull"]
+        n_pull += len(exp); n_change += sum(1 for op in b if op["op"] == "Change")
+        for j, (x, y) in enumerate(zip(exp, o["out"])):
+            same = x["kind"] == y["kind"] and (x["kind"] != "item" or (x["e"], x["c"], x["a"]) == (y["e"], y["c"], y["a"])) and (x["kind"] != "status" or x["code"] == y["code"])
+            if not same and bi not in bad:
+                raise vlib.ToolError("Expand.tla does not describe the code: answer %d, pull %d: model %s, code %s (Layer P accepts the real answer)" % (bi, j, x, y))
+            if not same:
+                break
+    # binding self-test: an item dropped from a recorded answer must be rejected (Complete)
+    ev = vlib.read_ndjson(tpath)
+    runs = [r for ri, r in enumerate(vlib.split_runs(ev)) if ri not in bad]
+    pick = next(r for r in runs if sum(1 for e in r if e["ev"] == "Item") >= 3 and not any(e["ev"] == "Change" for e in r))
+    kdrop = next(i for i, e in enumerate(pick) if e["ev"] == "Item")
+    cpath = os.path.join(wd, "expand_corrupt.ndjson")
+    vlib.write_ndjson(cpath, pick[:kdrop] + pick[kdrop + 1:])
+    r2 = vlib.tlc_trace("C06", "ExpandTrace.tla", "ExpandTrace.cfg", cpath, tag="expselftest")
+    if r2["accepted"]:
+        raise vlib.ToolError("binding self-test failed: an answer with an item dropped was accepted")
+    ck.cov["node_changing_during_answer"] = {
+        "model": {k2: mc[k2] for k2 in ("cfg", "generated", "distinct", "depth", "wall_s")}, "model_exhaustive": True,
+        "model_sensitivity": {"cfg": "MCExpand_stale.cfg", "violated": sens["violated"]},
+        "answers_replayed": len(beh), "pulls_compared": n_pull, "node_replacements": n_change, "real": summ,
+        "trace_validation": {"spec": "ExpandTrace.tla", "states": states, "runs": n_runs, "rejected": len(rej)},
+        "binding_selftest": {"dropped_item_rejected_at": r2.get("rejected_at"), "ok": True},
+        "sample": beh[0][:6]}
+    return gen + mc["generated"], len(beh)
 
 def run(tier, seed):
     ck = Check("C06", tier, seed)
@@ -59,13 +133,39 @@ def run(tier, seed):
                 expected[tuple(s)] += 1
         n_sel += sum(expected.values())
         what = None
-        if v["req"].get("late"):
-            # the timed window had expired when the write / invoke arrived: refused as a whole, nothing acted on
+        # a write in two chunks: the second chunk is judged on its own (handler calls after the mark, items of chunk 2),
+        # then the first one as any other request
+        if v["req"].get("paths2") and not t["error"]:
+            mark = next((i for i, h in enumerate(t["handler"]) if h["h"] == "mark"), len(t["handler"]))
+            h2 = [h for h in t["handler"][mark + 1:]]
+            i2 = [i for i in t["items"] if i.get("chunk") == 2]
+            exp2 = collections.Counter(tuple(s) for r in v["results2"] for s in r["sel"])
+            calls2 = collections.Counter(key(h) for h in h2 if h["h"] == "write")
+            ok2 = collections.Counter(key(i) for i in i2 if i["k"] == "status" and i["status"] == "Success")
+            if mark == len(t["handler"]) and not any(i.get("k") == "chunk-status" and i.get("chunk") == 1 for i in t["items"]):
+                what = ("chunk2-not-sent", "the second chunk was never sent: %s" % t["items"][:4])
+            elif v["refused2"] and (calls2 or ok2):
+                what = ("refused-chunk-acted", "the second chunk (flag %s in a %s interaction%s) was acted on: calls %s, success for %s" % (
+                    v["req"]["claim2"], "timed" if v["req"]["timed"] else "non-timed", ", after the window" if v["req"]["late2"] else "", sorted(calls2.elements()), sorted(ok2.elements())))
+            elif calls2 != exp2 or ok2 != exp2:
+                what = ("chunk2-acted-set", "second chunk: handler calls %s, success for %s, reference %s" % (sorted(calls2.elements()), sorted(ok2.elements()), sorted(exp2.elements())))
+            elif not v["refused2"]:
+                for p, r in zip(v["req"]["paths2"], v["results2"]):
+                    conc = (p["ep"], p["cl"], p["leaf"])
+                    if r["status"] and not [i for i in i2 if i["k"] == "status" and key(i) == conc and i["status"] != "Success"]:
+                        what = ("chunk2-missing-status", "second chunk: the concrete path %s selects nothing but is not answered with a failure status: %s" % (conc, i2[:4]))
+            t = dict(t, handler=[h for h in t["handler"][:mark]], items=[i for i in t["items"] if i.get("chunk") in (None, 1) and i.get("k") != "chunk-status"])
+        if what:
+            pass
+        elif v.get("refused", v["req"].get("late")):
+            # the flag of the message does not match the interaction, or the timed window had expired when the write / invoke
+            # arrived: refused as a whole, nothing acted on
+            why = "arrived after its timed window" if v["req"].get("late") else "carries TimedRequest=%s in a %s interaction" % (v["req"].get("claim"), "timed" if v["req"]["timed"] else "non-timed")
             acted = [h for h in t["handler"] if h["h"] != "read"]
             if acted:
-                what = ("late-acted", "a %s that arrived after its timed window was acted on: %s" % (kind, acted[:3]))
+                what = ("late-acted" if v["req"].get("late") else "mismatch-acted", "a %s that %s was acted on: %s" % (kind, why, acted[:3]))
             elif not t["error"] and any(i.get("k") == "status" and i.get("status") == "Success" for i in t["items"]):
-                what = ("late-accepted", "a %s that arrived after its timed window was answered with success: %s" % (kind, t["items"][:3]))
+                what = ("late-accepted" if v["req"].get("late") else "mismatch-accepted", "a %s that %s was answered with success: %s" % (kind, why, t["items"][:3]))
         elif t["error"]:
             what = ("request-failed", "the request as a whole failed: %s" % t["error"])
         else:
@@ -108,13 +208,15 @@ def run(tier, seed):
     fake[next(iter(fake))] += 1
     if (set(calls) == set(fake)) and sum(fake.values()) == sum(calls.values()):
         raise vlib.ToolError("binding self-test failed")
+    xs, xn = expand_stage(ck, quick, seed)
     ck.cov.update({
-        "states": states, "transitions": states, "traces_validated_against_impl": len(vecs), "exhaustive": False,
+        "states": states + xs, "transitions": states + xs, "traces_validated_against_impl": len(vecs) + xn, "exhaustive": False,
         "vectors": len(vecs), "elements_expected": n_sel, "status_paths_expected": n_status, "by_feature": dict(feats.most_common(40)),
         "real": summ, "reference_invariant": "ISane (checked by TLC on every drawn vector)",
         "samples": [vecs[0], tr[0]],
     })
     ck.assumptions += ["well-formed requests only (a wildcard cluster goes with a wildcard attribute; writes and invokes name cluster and leaf; one command per invoke)",
-                       "events, data-version filters, fabric-sensitive data of other fabrics and a node composition that changes between the chunks of one answer are not part of the drawn universe",
-                       "an expired timed window is not drawn (timed interactions are within their window)"]
+                       "events, data-version filters and fabric-sensitive data of other fabrics are not part of the drawn universe",
+                       "node changing during an answer: endpoints come and go between two expanded items, the shape of an endpoint is fixed (the invariant im/expand.rs documents); attribute reads by a PASE requester, 10 requests over 4 endpoints of three shapes",
+                       ]
     return ck.finish()
